@@ -270,12 +270,12 @@ def _kind_of(strategy):
 
 
 def _test_name():
-    return st.one_of(ident(), st.sampled_from(['"test name @"', "${t@}", "t-@", "NAMED@", "EXPECTFAILURE@", "rate_%d_@", "half_50%_@",
+    return st.one_of(ident(), st.sampled_from(["trim_@_", '"test name @"', "${t@}", "t-@", "NAMED@", "EXPECTFAILURE@", "rate_%d_@", "half_50%_@",
                                                "cov_100%%_@", "te\u0301st@", "\u212b@"]))
 
 
 def _test_extra():
-    return st.lists(st.sampled_from(["EXPECTFAIL", "COMMAND", "--flag@", "${exe@}", "XNAME", "NAME_@", "EXPECTFAIL_NOT@",
+    return st.lists(st.sampled_from(["EXPECTFAIL", "COMMAND", "--prefix=out@_", "--flag@", "${exe@}", "XNAME", "NAME_@", "EXPECTFAIL_NOT@",
                                      "WORKING_DIRECTORY", '"a b @"', "=NAME=", "same", '"a  b\t@"', '" lead @"', "[[x  y @]]"]), max_size=3)
 
 
@@ -438,6 +438,8 @@ def _fin_items(lst, c, in_body):
                 it["bases"], it["doc"] = list(c.last["class-bases"]), None      # a class declared again: same name and bases
             if it["bases"] and c.n % 5 == 0:
                 it["bases"] = it["bases"] + [it["bases"][0]]        # the same base named twice
+            if c.n % 4 == 1:
+                it["bases"] = it["bases"] + [("obj", "OBJ", "Obj")[c.n % 3]]       # the CMakePP root class, as any other base
             c.last["class-bases"] = list(it["bases"])
             it["doc"] = _fin_doc(it["doc"], c)
             c.classes.append(it["name"])
